@@ -1,5 +1,6 @@
 import BM.Props.C18
 import BM.Proofs.CssAbs
+import BM.Proofs.ViewTables
 /-
   C18, the composition of the leaves by the handler bodies.  `Proofs/CssAbs` proves a static analysis
   of Go-lite handler bodies sound against the interpreter; here it is run — by the kernel — on the
@@ -118,7 +119,7 @@ theorem C18_handlers_clean (prop v : Bytes) (fn : String)
 set_option maxRecDepth 1000000 in
 /-- the properties of the table whose handler the analysis does not accept -/
 theorem css_table_unanalysed :
-    (Gen.defaultStyleHandlers.filter fun e => !cssClosed.contains e.2).map (·.1) =
+    (Gen.defaultStyleHandlers.filter fun e => !cssA.closedFns.contains e.2).map (·.1) =
       [b!"background", b!"background-size", b!"border-bottom-left-radius", b!"border-bottom-right-radius",
        b!"border-top-left-radius", b!"border-top-right-radius", b!"box-shadow", b!"filter", b!"font", b!"grid",
        b!"perspective-origin", b!"text-shadow", b!"transform", b!"transform-origin"] := by decide
@@ -128,5 +129,56 @@ set_option maxRecDepth 1000000 in
 example : Gen.defaultStyleHandlers.find? (·.1 == b!"color") = some (b!"color", "ColorHandler") ∧
     "ColorHandler" ∈ cssA.closedFns ∧ defaultHandler b!"color" b!"red" = true ∧ defaultHandler b!"color" b!"r\\65 d" = false := by
   refine ⟨by decide, by decide, by decide, by decide⟩
+
+/-! ### through the policy -/
+
+/-- a style matcher that accepts clean values only -/
+def CleanOnly (sp : StylePolicy) : Prop := ∀ v, okS sp v = true → Clean v
+
+/-- the properties whose default handler the analysis does not vouch for -/
+def cssUnanalysedProps : List Bytes :=
+  (Gen.defaultStyleHandlers.filter fun e => !cssA.closedFns.contains e.2).map (·.1)
+
+/-- **the matcher `AllowStyles(prop)` installs when it is given none** — the default handler of
+    `prop`, or the reject-everything handler for a property outside the table — accepts clean values
+    only, for every property but the fourteen of `css_table_unanalysed` -/
+theorem default_matcher_cleanOnly (prop : Bytes) (hprop : prop ∉ cssUnanalysedProps) :
+    CleanOnly (mkStylePolicy defaultHandler {} prop) := by
+  intro v hv
+  have hsp : mkStylePolicy defaultHandler {} prop = { handler := some (defaultHandler prop) } := rfl
+  rw [hsp] at hv
+  simp only [okS] at hv
+  cases hfind : Gen.defaultStyleHandlers.find? (·.1 == prop) with
+  | none => simp [defaultHandler, hfind] at hv
+  | some e =>
+    obtain ⟨prop', fn⟩ := e
+    have hmem := List.mem_of_find?_eq_some hfind
+    have hkey : prop' = prop := by
+      have := List.find?_some hfind
+      simpa using this
+    subst hkey
+    have hfn : fn ∈ cssA.closedFns := by
+      rcases hc : cssA.closedFns.contains fn with _ | _
+      · exfalso
+        apply hprop
+        unfold cssUnanalysedProps
+        exact List.mem_map.mpr ⟨(prop', fn), List.mem_filter.mpr ⟨hmem, by show (!cssA.closedFns.contains fn) = true; rw [hc]; rfl⟩, rfl⟩
+      · exact List.contains_iff_mem.mp hc
+    exact C18_handlers_clean prop' v fn hfind hfn hv
+
+/-- **C10 + C18 through `sanitizeStyles`**: if every style rule that applies to element `el` — its own
+    or the merged pattern rules, and the global ones — accepts clean values only (as the default
+    matchers do), then every declaration that `sanitizeStyles` keeps has a value that, lower-cased and
+    with its escapes decoded, contains no backslash, angle bracket, at-sign, semicolon or brace -/
+theorem C18_kept_declarations_clean (p : Policy) (el : Bytes)
+    (hE : ∀ prop sp, sp ∈ rulesOf (p.styleRulesFor el) prop → CleanOnly sp)
+    (hG : ∀ prop sp, sp ∈ p.globalStyleRules prop → CleanOnly sp)
+    (dec : Css.Decl) (h : p.declAccepted (p.styleRulesFor el) dec = true) :
+    ∃ tv, removeUnicode (toLowerGo dec.value) = some tv ∧ Clean tv := by
+  obtain ⟨tv, htv, hacc⟩ := (declAccepted_iff p (p.styleRulesFor el) dec).mp h
+  refine ⟨tv, htv, ?_⟩
+  rcases hacc with ⟨sp, hsp, hok⟩ | ⟨sp, hsp, hok⟩
+  · exact hE _ sp hsp tv hok
+  · exact hG _ sp hsp tv hok
 
 end BM.Props
